@@ -25,6 +25,18 @@ CHECKS = {
  "C06": ("raw-header runtime monitor in lock-step (reply bytes re-framed independently and compared octet by octet with the mirrored header and reference pad)",
          "All 196608 request headers (3 types x 2 minor x 256 flag octets x 128 odd sequence numbers) and every reply kind/size are exchanged with the real server loop; each reply's raw header, length field and obfuscation are checked; full 1..255 walks of one session.",
          "scope: Reply/ReplyWithContext; a RESTART reply to request 255 is unjudged (statement ambiguous)", "3/C06"),
+ "C08": ("model-based runtime monitor over connection histories (executable session/sequence model vs handler identity and close events of the real loop)",
+         "All histories of length <= 4 over {1,2,3,5,253,255}x{A,B} plus seeded random longer histories are played in lock-step; every dispatch (which handler: initial or which continuation) and every rejection (no handler, closed) must match the model.",
+         "RESTART replies excluded from the scripts; handler identity observed through the wrapping Handler", "3/C08"),
+ "C17": ("event-order runtime monitor over the totally ordered simnet log with virtual time; cancellation injected at generated moments",
+         "Shutdown scenarios with connections in every state and pacing scenarios are run against the real Serve loop; the oracle checks that nothing happens after Serve returned, that listener/connections/handlers are finished by then, that Serve does not return early, that a deadline is armed at every Read and that stalled connections are closed without a handler call.",
+         "liveness restated as bounded progress with a quiescent-state witness; real 15 s/10 s deadlines emulated by virtual time", "3/C17"),
+ "C19": ("classifier-based runtime monitor (independent length-consistency classifier of the bytes the server will see; handler entries / packets / close observed in lock-step)",
+         "Requests are classified must-flag / must-not-flag / unjudged by h/rfc8907.Decode over all layouts of the type; the real loop must answer must-flag with exactly one ERROR packet of the matching type, no handler, close, and must dispatch must-not-flag requests.",
+         "error packet judged only on count, type, reply layout and ERROR status", "3/C19"),
+ "C20": ("conservation runtime monitor over the default prometheus registry (pre-burst vs quiescent values, non-negativity of every sample)",
+         "Bursts of connection histories of 13 kinds (completed, abandoned, rejected, refused, shutdown) are run sequentially and concurrently against one server per burst; gauges are sampled throughout and compared at quiescence.",
+         "gauges are process-global: one server per burst, one process per batch", "3/C20"),
 }
 
 NA_REASON = "check not built yet in this round (work in progress; see DESIGN.md section 3 for the planned monitor)"
